@@ -97,12 +97,24 @@ TRIG = {"REC": trig_REC, "CD": trig_CD, "LU2": trig_LU(2), "LU5": trig_LU(5), "M
 
 
 # ---- reference model of the documented RemoveEmptyContainers rule -------------------------------
-def rec_model(t):
-    """canon of: drop an all-Any generic from a union only beside a not-all-Any generic of the same origin;
-    recurse through Union/List/Set/Dict/Tuple/Generator/TypedDict (where the generic rewriter descends)."""
+OPTIONAL_DESCENT = [collections.defaultdict, collections.abc.Iterator, type]
+
+
+def rec_models(t):
+    """the documented rule says nothing about which generics are descended into: List/Set/Dict/Tuple/Generator/
+    TypedDict always are; DefaultDict / Iterator / Type may or may not be (any combination is accepted)"""
+    out = set()
+    for mask in range(8):
+        extra = tuple(o for i, o in enumerate(OPTIONAL_DESCENT) if mask >> i & 1)
+        out.add(rec_model(t, extra))
+    return out
+
+
+def rec_model(t, extra=()):
+    """canon of: drop an all-Any generic from a union only beside a not-all-Any generic of the same origin"""
     if is_anon_td(t):
         r, o = td_fields(t)
-        return ("TD", frozenset((k, rec_model(v)) for k, v in r.items()), frozenset((k, rec_model(v)) for k, v in o.items()))
+        return ("TD", frozenset((k, rec_model(v, extra)) for k, v in r.items()), frozenset((k, rec_model(v, extra)) for k, v in o.items()))
     og = origin(t)
     if og is Union:
         ms = args(t)
@@ -110,15 +122,15 @@ def rec_model(t):
             n is not m and origin(n) is origin(m) and not all_any_generic(n) for n in ms))]
         cs = set()
         for m in keep:
-            c = rec_model(m)
+            c = rec_model(m, extra)
             if c[0] == "U":
                 cs |= c[1]
             else:
                 cs.add(c)
         return next(iter(cs)) if len(cs) == 1 else ("U", frozenset(cs))
-    if og in (list, set, dict, tuple, collections.abc.Generator) and args(t):
+    if og in (list, set, dict, tuple, collections.abc.Generator) + tuple(extra) and args(t):
         c = canon(t)
-        return (c[0], c[1], tuple(("...",) if m is Ellipsis else rec_model(m) for m in args(t)))
+        return (c[0], c[1], tuple(("...",) if m is Ellipsis else rec_model(m, extra) for m in args(t)))
     return canon(t)
 
 
@@ -157,7 +169,7 @@ def check_type(ctx, spec, T, witnesses, pair):
             if not conforms(v, R):
                 ctx.fail(f"C07/{name}-narrows", spec, f"{name}: {show(T)} -> {show(R)} no longer admits {v!r}")
                 break
-        if name == "REC" and cR != rec_model(T):
+        if name == "REC" and cR not in rec_models(T):
             ctx.fail("C07/REC-deviates-from-documented-rule", spec, f"REC: {show(T)} -> {show(R)}, documented rule gives {rec_model(T)}")
     # chains are sequential compositions
     for cname, parts in (("DEFAULT", DEFAULT_PARTS), ("CONFIG", DEFAULT_PARTS), ("PAIR", list(pair))):
